@@ -15,6 +15,7 @@ import errno
 from mc import vrt
 
 AF_INET, SOCK_STREAM, SOL_SOCKET, SO_REUSEADDR, SO_KEEPALIVE, SHUT_RD, SHUT_WR, SHUT_RDWR = 2, 1, 1, 2, 9, 0, 1, 2
+SO_LINGER = 13
 
 
 class Kernel:
@@ -52,12 +53,23 @@ class VSocket:
         self.reuse = False
         self.sent_total = 0
         self.is_peer = False
+        self.abortive_close = False
+        self.was_reset = False
 
     # ---- options
     def setsockopt(self, level, opt, value):
         self._open()
         if level == SOL_SOCKET and opt == SO_REUSEADDR:
             self.reuse = bool(value)
+        if level == SOL_SOCKET and opt == SO_LINGER:
+            # struct linger {int l_onoff; int l_linger}: on with zero time-out = abortive close (RST), queued data is discarded
+            import struct  # noqa: PLC0415
+
+            try:
+                onoff, secs = struct.unpack("ii", bytes(value))
+            except (struct.error, TypeError):
+                onoff, secs = 0, 0
+            self.abortive_close = bool(onoff) and secs == 0
 
     def setblocking(self, flag):
         self._open()
@@ -218,6 +230,11 @@ class VSocket:
             del self.k.peer_listeners[self.addr]
         if self.peer is not None:
             self.peer.peer_closed = True
+            if self.abortive_close and was == "connected":
+                # RST: what already reached the peer's receive queue stays readable (checked on real loopback), what still sits in this
+                # side's send buffer - everything beyond the peer's receive buffer of k.rcvbuf unread bytes - is discarded
+                del self.peer.rx[getattr(self.k, "rcvbuf", 1 << 30):]
+                self.peer.was_reset = True
 
     # ---- readiness (used by select)
     def readable(self):
@@ -267,6 +284,7 @@ def vselect(rlist, wlist, xlist, timeout=None):
 
 class _SocketModule:
     AF_INET, SOCK_STREAM, SOL_SOCKET, SO_REUSEADDR, SO_KEEPALIVE = AF_INET, SOCK_STREAM, SOL_SOCKET, SO_REUSEADDR, SO_KEEPALIVE
+    SO_LINGER = SO_LINGER
     SHUT_RD, SHUT_WR, SHUT_RDWR = SHUT_RD, SHUT_WR, SHUT_RDWR
     socket = VSocket
     error = OSError
